@@ -29,3 +29,55 @@ def helpers(cls, text, **_):
     bad.append(f"blank test says {blank}")
   msg = f"{cls}: append_text({text!r}); normalize_eol() -> {out!r}; " + ("; ".join(bad) if bad else "contracts hold")
   return bool(bad), msg
+
+
+def _frac(x):
+  from fractions import Fraction
+  return Fraction(str(x))
+
+
+def to_string(kind, model=None, obligation="", **_):
+  """SrtParagraph / VttCue.to_string on the begin / end of a counter-model"""
+  from ttconv.srt.paragraph import SrtParagraph
+  from ttconv.vtt.cue import VttCue
+  model = model or {}
+  b, e = _frac(model.get("b", 0)), _frac(model.get("e", 0))
+  p = (SrtParagraph if kind == "srt" else VttCue)(7)
+  p.set_begin(b)
+  p.set_end(e)
+  p.append_text("x")
+  rb, re_ = round(b * 1000), round(e * 1000)
+  try:
+    out = p.to_string()
+  except ValueError as err:
+    bad = not re_ <= rb or e - b > _frac("1/1000")
+    return bad, f"{kind} to_string(begin={b}, end={e}) raised {err!r}; rounded times {rb} ms, {re_} ms"
+  import re
+  ts = [int(x) for x in re.findall(r"[0-9]+", out.split("\n")[1])]
+  got_b = ((ts[0] * 60 + ts[1]) * 60 + ts[2]) * 1000 + ts[3]
+  got_e = ((ts[4] * 60 + ts[5]) * 60 + ts[6]) * 1000 + ts[7]
+  bad = (got_b, got_e) != (rb, re_) or not rb < re_
+  return bad, f"{kind} to_string(begin={b}, end={e}) = {out!r}; rounded times {rb} ms, {re_} ms"
+
+
+def line(display_align, model=None, **_):
+  from fractions import Fraction
+  import ttconv.style_properties as sp
+  import contracts.c07 as K
+  from ttconv.isd import ISD
+  from ttconv.vtt.writer import VttContext
+  from ttconv.vtt.config import VTTWriterConfiguration
+  model = model or {}
+  top, h = _frac(model.get("top", 0)), _frac(model.get("height", 0))
+  da = sp.DisplayAlignType(display_align)
+  region, p = K._region_and_p(ISD(None), top, h, da)   # pylint: disable=protected-access
+  vtt = VttContext(VTTWriterConfiguration(line_position=True))
+  vtt.process_p(region, p, Fraction(0), Fraction(1))
+  cue = vtt._paragraphs[-1]    # pylint: disable=protected-access
+  want = {"before": top, "after": top + h, "center": top + h / 2}[display_align]
+  bad = abs(cue.get_line() - want) > Fraction(1, 2) or not 0 <= cue.get_line() <= 100
+  return bad, f"region top {top}% height {h}% displayAlign {display_align}: cue {str(cue)!r}; required line within 0.5 of {want}"
+
+
+def align(**_):
+  return False, "finite table; see the obligation name for the failing (textAlign, direction) pair"
